@@ -1,7 +1,8 @@
 #!/usr/bin/env python3
 """run_patch.py <patch.diff> [--props C01,C02] : applies the patch to a scratch worktree of /repo,
 extracts facts once, runs the rule packs of all (or the given) properties on them and prints which
-properties report violations that are not known findings."""
+properties report violations that are not known findings (--known: also which known findings
+are still reported, for repaired copies)."""
 import json, os, subprocess, sys, tempfile, shutil
 ROOT = os.path.dirname(os.path.dirname(os.path.abspath(__file__)))
 sys.path.insert(0, ROOT)
@@ -36,6 +37,11 @@ def main():
             v = sorted({i.key for i in rep.violations() if i.key not in known})
             if v:
                 out[pid] = v
+            if "--known" in sys.argv:
+                kpid = {k["key"] for k in runner.load_known() if k.get("status") == "known" and k.get("property") == pid}
+                kv = sorted({i.key for i in rep.violations() if i.key in kpid})
+                if kv:
+                    out.setdefault("KNOWN-STILL-REPORTED", {})[pid] = kv
         print(json.dumps(out, indent=1))
         return 0
     finally:
